@@ -100,9 +100,9 @@ Definition flagged_sites (g : list site) : list site :=
 
 (* ---------- known findings (hand-written; mirrored by /verif/known_findings.jsonl, property C14) ----------
    A site is identified by its file and a prefix of its format string, never by its line. *)
-Definition known_site (s : site) : bool :=
-  String.eqb (s_file s) "crates/mdk-core/src/epoch_snapshots.rs" &&
-  String.prefix "warn: Failed to parse snapshot name during hydration" (s_fmt s).
+Definition known_site (s : site) : bool := false.
+(* history: the WARN "Failed to parse snapshot name during hydration: {}" in crates/mdk-core/src/epoch_snapshots.rs
+   interpolated the snapshot name (which embeds the MLS group id); repaired in /repo by a fix: commit, so no site is excused. *)
 
 (* ---------- manual Debug impls that must exist (redaction instead of derive(Debug)) ---------- *)
 Definition redacting_types : list string :=
